@@ -194,7 +194,7 @@ static int classify(const SessionSpec &ss, const std::vector<ParamSpec> &params)
     // value); whether the iteration converges from further away is not claimed
     for (const StdSpec &st : ss.stds) for (int pi : st.params) {
 	const ParamSpec &q = params[(size_t)pi];
-	if (q.kind == 3 && (!q.kf.empty() || std::abs(q.guess - q.value) > 0.45)) return 0;
+	if (q.kind == 3 && (!q.kf.empty() || std::abs(q.guess - q.value * std::polar(1.0, st.rot)) > 0.45)) return 0;
     }
     auto known_std = [&](const StdSpec &st) { for (int pi : st.params) if (!params[(size_t)pi].known()) return false; return true; };
     double f0 = ss.fv.empty() ? 1e9 : ss.fv[0];
@@ -767,6 +767,7 @@ static void run_op(CalWorld &w, const Op &op, const Plan &plan)
 	st.variant = (int)op.I(3);
 	int p1 = (int)op.I(4), p2 = (int)op.I(5);
 	st.ab_scale = op.D(0, 1.0) == 0 ? 1.0 : op.D(0, 1.0);
+	st.rot = op.D(1, 0.0);
 	if (st.kind == 0) st.ports = {p1};
 	else if (st.kind == 4) { if (p1 < 1 || p1 > P || ss_rect(s.spec)) return; st.ports.clear(); for (int q = 0; q < P; ++q) st.ports.push_back((p1 - 1 + q) % P + 1); st.variant = 0; }	// all ports, rotated
 	else st.ports = {p1, p2};
@@ -988,13 +989,20 @@ static void run_op(CalWorld &w, const Op &op, const Plan &plan)
 		if (q.kind == 3 && !q.corr) comparable = false;
 		if (q.corr) { corr = true; if (q.corr_other >= 0 && slot.params[(size_t)q.corr_other].kind == 3) comparable = false; for (double f : slot.spec.fv) { double sv = sigma_at_knot(q, f); if (!(sv == sv)) comparable = false; } }
 	    }
+	    // (only where the known standards alone determine the error terms: otherwise the two solves may legitimately settle on different solutions)
+	    if (corr && comparable) {
+		SessionSpec known = slot.spec;
+		known.stds.clear();
+		for (auto &st : slot.spec.stds) { bool hc = false; for (int pi : st.params) if (slot.params[(size_t)pi].corr) hc = true; if (!hc) known.stds.push_back(st); }
+		if (classify(known, slot.params) != 1) comparable = false;
+	    }
 	    if (corr && comparable && slot.spec.dead_f < 0) {
 		SoloOpts o; o.per_frequency = true;
 		ApplyResult solo; std::string why;
 		if (!solo_apply(c, slot.spec, slot.params, fq, dut_seed, o, solo, why)) { if (!c.violated) c.count("probe.sigma_twin_not_solved"); return; }
 		double d = max_diff(r, solo);
 		c.log(" sigma twin differs by %g", d);
-		if (!(d <= 1e-4)) { c.violate("model", "apply:sigma", strf("calibration \"%s\" with sigma vectors and its twin solved one frequency at a time with the sigma value supplied for that frequency differ by %.3g", name.c_str(), d)); return; }
+		if (!(d <= 1e-3)) { c.violate("model", "apply:sigma", strf("calibration \"%s\" with sigma vectors and its twin solved one frequency at a time with the sigma value supplied for that frequency differ by %.3g", name.c_str(), d)); return; }
 		c.count("probe.sigma_twin_agrees");
 		c.nontrivial = true;
 		return;
